@@ -71,6 +71,8 @@ def fd_step(V, lam, tail, G, k, decay):
   w = np.maximum(w[::-1], 0.0)
   U = U[:, ::-1]
   rho = w[k] if k < d else 0.0
+  if rho <= 1e-10 * max(w[0], 1e-300):
+    rho = 0.0     # exact arithmetic: a history of rank <= k escapes nothing
   top = w[:k]
   lam2 = np.maximum(top - rho, 0.0)
   tail2 = decay * tail + rho
@@ -190,6 +192,9 @@ class TearfreeRef:
         a["V"], a["lam"], a["tail"] = V2, lam2, tail2
         a["inv"] = np.where(lam2 > 0, (und + eps) ** alpha, 0.0)
         a["inv_tail"] = (tail2 + eps) ** alpha if tail2 > 0 else 0.0
+        if k < d and tail2 <= 1e-4 * max(w[0], 1e-300):
+          # the real float32 code decides `tail > 0` on rounding noise here: not predictable
+          self.info["tail_sign_ambiguous"] = True
         a["spectrum"] = w
     x = gm
     for ax, a in enumerate(axes):
